@@ -1320,6 +1320,26 @@ fn main() {
         ev.class(&format!("e2e-zero:{}{}{}:{}", ka, kb, op.sym(), form.name()));
         programs.push(stmts);
     }
+    let n_generated = programs.len();
+    // regression inputs: canonical inputs of findings that are no longer open (fixed) run as ordinary programs
+    {
+        let dir = vcore::verif_root().join("known").join("C04");
+        let mut files: Vec<std::path::PathBuf> = std::fs::read_dir(&dir).map(|rd| rd.flatten().map(|e| e.path()).collect()).unwrap_or_default();
+        files.sort();
+        for f in files {
+            if out.known.open.iter().any(|e| e.replay == f) {
+                continue;
+            }
+            let stmts: Vec<Stmt> = serde_json::from_str::<Value>(&std::fs::read_to_string(&f).unwrap_or_default())
+                .ok()
+                .and_then(|v| v["statements"].as_array().map(|a| a.iter().filter_map(stmt_from_json).collect()))
+                .unwrap_or_default();
+            if !stmts.is_empty() {
+                ev.class("regression-input");
+                programs.push(stmts);
+            }
+        }
+    }
     for st in programs.iter().flatten() {
         e2e_stmt_count += 1;
         ev.case(if nontrivial(st.p) { Some(case_hash(st.op, st.p) ^ 0xE2E) } else { None });
@@ -1328,7 +1348,7 @@ fn main() {
     if let Some(p0) = programs.first() {
         ev.sample(json!({"leg": "e2e", "first_statements_of_program_0": util::truncate(&render(&p0[..p0.len().min(4)]), 900)}));
     }
-    if let Some(pz) = programs.last() {
+    if let Some(pz) = programs[..n_generated].last() {
         ev.sample(json!({"leg": "e2e-zero-divisor", "program": util::truncate(&render(pz), 1500)}));
     }
     let t_e2e = std::time::Instant::now();
